@@ -1074,6 +1074,12 @@ class Models:
             # an attribute of the class or a private field
             lead = name.pieces[0] if isinstance(name.pieces[0], str) else ""
             if not lead and len(name.pieces) == 1 and isinstance(name.pieces[0], Opaque):
+                mon = self.st.ghost.get("monitor")
+                if mon is not None and self.st.ghost.get("monitor_obj") == obj.id and hasattr(mon, "on_symstore") \
+                        and mon.on_symstore(self.ex, obj, name, v):
+                    # the key/value loop stored under a name that is not the looked-up one: reported by the monitor;
+                    # the path ends here (which field such a store would hit is not explored)
+                    raise PathEnd()
                 # a wholly unknown name: it is one of the object's fields, a class attribute, or a new name.  Case split
                 # over those (candidates contradicting what the path already learnt about the name's prefix / suffix
                 # are dropped).
@@ -1096,6 +1102,9 @@ class Models:
             rec.setdefault("symfields", []).append((name, v))
             self.st.record_write((obj.id, lead + "*"))
             self.st.trace.append(("setsym", obj.id, lead))
+            mon = self.st.ghost.get("monitor")
+            if mon is not None and self.st.ghost.get("monitor_obj") == obj.id and hasattr(mon, "on_symstore"):
+                mon.on_symstore(self.ex, obj, name, v)
             return
         if isinstance(name, SStr):
             # family store: literal base + Fmt index pieces
